@@ -317,7 +317,8 @@ def run(run):
     stab = []
     for nn, ncol in ((4, 2), (6, 2), (5, 3)) if quick else ((4, 2), (6, 2), (5, 3), (8, 2), (12, 2), (9, 4)):
         # the second one: same geometry, another r0; the last two: very weak turbulence (pixel / r0 = 1e-5, 1e-6)
-        for prm in (PARAMS[0], (PARAMS[0][0], PARAMS[0][1] * 2.5, PARAMS[0][2]), (0.5, 5.0e4, 20.0), (0.01, 1.0e4, 10.0)):
+        for prm in (PARAMS[0], (PARAMS[0][0], PARAMS[0][1] * 2.5, PARAMS[0][2]), (0.5, 5.0e4, 20.0), (0.01, 1.0e4, 10.0),
+                    (1, 0.3, 20.0), (2, 0.5, 30.0)):                                   # ... and a pixel scale given as a Python int
             rho, res = c04.vk_stability(ips, nn, ncol, prm)
             if rho is None:
                 run.unrunnable.append(dict(stability=[nn, ncol], why="add_row does not draw its innovation inside the call"))
@@ -336,6 +337,27 @@ def run(run):
         if info.get("repeat"):
             run.violation("infinite_screen:innovation-repeats-earlier-step", info, dict(kind="fresh", variant=variant, req=req, steps=info["steps"]))
     run.aux["fresh_innovation_runs"] = fresh
+    # ---- a screen the caller was handed stays what it was ("nothing else changes"): keep every returned array WITHOUT copying it,
+    #      step on, and compare with the snapshot taken when it was handed out
+    n_held = 0
+    for variant, req, f in (("vk", 4, 1), ("fried", 4, 1), ("fried", 5, 2), ("vk", 7, 1)):
+        try:
+            obj = build(ips, variant, req, f, PARAMS[0], 31 + run.seed % 1000)
+        except Exception:  # noqa
+            continue
+        held, snaps = [], []
+        for k in range(7):
+            fr = obj.add_row() if k % 2 == 0 else obj.scrn
+            if k % 2 == 1:
+                obj.add_row()
+            held.append(fr)
+            snaps.append(np.array(fr, copy=True))
+            n_held += 1
+        stale = [i for i, (a_, b_) in enumerate(zip(held, snaps)) if not np.array_equal(np.asarray(a_), b_)]
+        if stale:
+            run.violation("infinite_screen:screen-handed-out-earlier-is-overwritten", dict(variant=variant, req=req, f=f, frames_changed=stale),
+                          dict(kind="held", variant=variant, req=req, f=f))
+    run.aux["held_frames_checked"] = n_held
     run.aux["vk_stability"] = stab
     run.aux.update(mode_a_histories=n, mode_b_traces=len(traces), mode_b_rejected=len(rejected),
                    mode_b_events=sum(len(t["events"]) for t in traces), constructions_skipped=skipped)
@@ -355,6 +377,16 @@ def replay(run, case):
         rho, res = c04.vk_stability(ips, case["n"], case["ncol"], PARAMS[0])
         if rho is not None and (not (rho < 1 - 1e-9) or res > 1e-4):
             run.violation("infinite_screen:vk-recursion-not-stable-at-von-karman-covariance", dict(rho=rho, res=res), case)
+        return
+    if case.get("kind") == "held":
+        obj = build(ips, case["variant"], case["req"], case["f"], PARAMS[0], 31 + run.seed % 1000)
+        held, snaps = [], []
+        for k in range(7):
+            fr = obj.add_row()
+            held.append(fr)
+            snaps.append(np.array(fr, copy=True))
+        if any(not np.array_equal(np.asarray(a_), b_) for a_, b_ in zip(held, snaps)):
+            run.violation("infinite_screen:screen-handed-out-earlier-is-overwritten", {}, case)
         return
     if case.get("kind") == "fresh":
         info = fresh_innovations(ips, case["variant"], case["req"], case["steps"], 97 + run.seed % 1000)
